@@ -36,11 +36,15 @@ impl BytesMut {
 #[verifier::external_body]
 pub struct Frame { _p: u8 }
 pub uninterp spec fn wire(f: Frame) -> Seq<u8>;
+pub uninterp spec fn is_transfer(f: Frame) -> bool;
+/// `matches!(item.body, amqp::FrameBody::Transfer { .. })`
+#[verifier::external_body]
+pub fn frame_is_transfer(f: &Frame) -> (r: bool) ensures r == is_transfer(*f) { unimplemented!() }
 #[verifier::external_body]
 pub struct FrameError { _p: u8 }
 #[verifier::external_body]
 pub struct IoError { _p: u8 }
-pub enum Error { Io(IoError), Frame(FrameError), Other }
+pub enum Error { Io(IoError), Frame(FrameError), FramingError, Other }
 impl From<FrameError> for Error { #[verifier::external_body] fn from(e: FrameError) -> Self { Error::Frame(e) } }
 impl From<IoError> for Error { #[verifier::external_body] fn from(e: IoError) -> Self { Error::Io(e) } }
 pub struct FrameEncoder { pub max_frame_body_size: usize }
@@ -81,6 +85,9 @@ pub proof fn lemma_flat_push(items: Seq<Seq<u8>>, x: Seq<u8>)
     assert(items.push(x).drop_last() =~= items);
 }
 
+/// the items this call handed to the length-delimited writer
+pub open spec fn added_items(o: Transport, f: Transport) -> Seq<Seq<u8>> { f.framed_write.items@.skip(o.framed_write.items@.len() as int) }
+
 impl Transport {
 //@@ fn file=fe2o3-amqp/src/transport/mod.rs impl=`impl<Io> Sink<amqp::Frame> for Transport<Io, amqp::Frame> where Io: AsyncWrite + Unpin,` name=start_send
 //@@ subst `mut self: std::pin::Pin<&mut Self>` => `&mut self` rule=R3
@@ -89,21 +96,18 @@ impl Transport {
 //@@ subst `Pin::new(&mut self.framed_write)` => `&mut self.framed_write` rule=R3
 //@@ subst `amqp::FrameEncoder::new(` => `FrameEncoder::new(` rule=R11
 //@@ subst `.map_err(Into::into)` => `.map_err(|e: IoError| -> (o: Error) { Error::Io(e) })` rule=R17
+//@@ subst `matches!(item.body, amqp::FrameBody::Transfer { .. })` => `frame_is_transfer(&item)` rule=optional-R11
 //@@ spec
     requires
         old(self).framed_write.codec.max >= 4,       // established by length_delimited_encoder / set_encoder_max_frame_size: max(MIN_MAX_FRAME_SIZE, n) - 4 >= 508
     ensures
         final(self).framed_write.codec == old(self).framed_write.codec,
-        r is Ok ==> ({
-            let old_items = old(self).framed_write.items@;
-            let new_items = final(self).framed_write.items@.skip(old_items.len() as int);
-            let max = old(self).framed_write.codec.max as int;
-            &&& final(self).framed_write.items@.len() >= old_items.len()
-            &&& final(self).framed_write.items@.take(old_items.len() as int) =~= old_items
-            &&& flat(new_items) =~= wire(item)                                                     // [C06.transport.no-loss] the length-delimited items written concatenate to exactly the encoded frame(s): nothing lost, duplicated or reordered
-            &&& (forall|i: int| 0 <= i < new_items.len() ==> 0 < (#[trigger] new_items[i]).len() <= max)   // [C06.transport.max-frame] every item (4-byte length prefix added by the codec) stays within the peer's max-frame-size, and [C06.transport.no-bogus-frame] no empty item (a bogus 4-byte frame) is ever written
-            &&& (forall|i: int| 0 <= i < new_items.len() - 1 ==> (#[trigger] new_items[i]).len() == max)   // [C06.transport.cut-points] all but the last item are exactly max long: with unit FRAMEENC's lemma_cut_points the cuts coincide with the frame boundaries of a split transfer
-        }),
+        r is Ok ==> final(self).framed_write.items@.len() >= old(self).framed_write.items@.len()
+            && final(self).framed_write.items@.take(old(self).framed_write.items@.len() as int) =~= old(self).framed_write.items@,
+        r is Ok ==> flat(added_items(*old(self), *final(self))) =~= wire(item),                                              // [C06.transport.no-loss] the length-delimited items written concatenate to exactly the encoded frame(s): nothing lost, duplicated or reordered
+        r is Ok ==> (forall|i: int| 0 <= i < added_items(*old(self), *final(self)).len() ==> 0 < (#[trigger] added_items(*old(self), *final(self))[i]).len() <= old(self).framed_write.codec.max),   // [C06.transport.max-frame] every item (4-byte length prefix added by the codec) stays within the peer's max-frame-size, and no empty item (a bogus 4-byte frame) is ever written
+        r is Ok && !is_transfer(item) ==> added_items(*old(self), *final(self)).len() == 1,                                  // [C06.transport.non-transfer-whole] only a transfer may continue in further frames: any other performative is written as ONE frame, or (when its encoding exceeds the peer's max-frame-size) not at all
+        r is Ok ==> (forall|i: int| 0 <= i < added_items(*old(self), *final(self)).len() - 1 ==> (#[trigger] added_items(*old(self), *final(self))[i]).len() == old(self).framed_write.codec.max),   // [C06.transport.cut-points] all but the last item are exactly max long: with unit FRAMEENC's lemma_cut_points the cuts coincide with the frame boundaries of a split transfer
 //@@ entry
         let ghost items0 = self.framed_write.items@;
 //@@ loop 0
